@@ -45,7 +45,7 @@ def _behaviour(spec, seed):
         return behave.FaultyRTBehaviour(spec.get("seed", seed), fault, **kw)
     if kind == "faultplan":
         plan = kw.pop("plan")
-        return behave.FaultPlanBehaviour(spec.get("seed", seed), plan, **kw)
+        return behave.FaultPlanBehaviour(spec.get("seed", seed), plan, kw.pop("agents", None), **kw)
     if kind == "faulty":
         fault = kw.pop("fault")
         return behave.FaultyBehaviour(spec.get("seed", seed), fault, **kw)
